@@ -42,6 +42,44 @@ type c04Env struct {
 	pendTerm uint64
 	loadDuringPersist bool
 	pendSuperseded    bool // a snapshot was installed after the pending one was captured
+	srcDB             *db.DB // a second connection to the database file, for parked read transactions
+	parked            []context.CancelFunc
+}
+
+// park starts a long-running read on a second connection: it holds a read transaction at the
+// current end of the WAL, so that a checkpoint can move every page but cannot truncate the WAL.
+// This is invisible at the level of the model (the snapshot is an ordinary incremental one).
+func (e *c04Env) park() {
+	if e.srcDB == nil {
+		d, err := db.Open(e.s.dbPath, false, true)
+		if err != nil {
+			e.t.Fatalf("park: %v", err)
+		}
+		e.srcDB = d
+	}
+	ctx, cancel := context.WithCancel(context.Background())
+	d := e.srcDB
+	go func() { d.QueryWithContext(ctx, mustCreateRequest(`SELECT * FROM bulk`), false) }()
+	time.Sleep(700 * time.Millisecond)
+	e.parked = append(e.parked, cancel)
+}
+
+func (e *c04Env) unpark() {
+	for _, c := range e.parked {
+		c()
+	}
+	if len(e.parked) > 0 {
+		time.Sleep(400 * time.Millisecond)
+	}
+	e.parked = nil
+}
+
+func (e *c04Env) closeReaders() {
+	e.unpark()
+	if e.srcDB != nil {
+		e.srcDB.Close()
+		e.srcDB = nil
+	}
 }
 
 // c04CatchFatal replaces the sink's "exit the process" function (an unexported field of
@@ -127,6 +165,7 @@ func (e *c04Env) state() string {
 // evaluates the property: it must open and hold exactly what it had applied.
 func (e *c04Env) restartProc() string {
 	s := e.s
+	e.closeReaders()
 	before := e.fullContent()
 	if err := s.Close(true); err != nil {
 		e.t.Fatalf("close: %v", err)
@@ -241,6 +280,21 @@ func (e *c04Env) do(op string, r *vfRng) {
 		mustExecute(e.t, s, qs)
 		e.emit(fmt.Sprintf("write %d", e.nextID), "ok")
 		e.hist = append(e.hist, "write(120 rows)")
+	case op == "park":
+		e.park()
+		e.hist = append(e.hist, "reader parked at the end of the WAL")
+	case op == "unpark":
+		e.unpark()
+		e.hist = append(e.hist, "readers released")
+	case op == "repark":
+		old := e.parked
+		e.parked = nil
+		for _, c := range old {
+			c()
+		}
+		time.Sleep(400 * time.Millisecond)
+		e.park()
+		e.hist = append(e.hist, "reader replaced by one at the new end of the WAL")
 	case op == "noop":
 		af, err := s.Noop("verif")
 		if err != nil || af.Error() != nil {
@@ -561,7 +615,7 @@ func c04NewEnv(t *testing.T, rep *vfReport) *c04Env {
 }
 
 func TestVerifC04(t *testing.T) {
-	rep := vfNewReport("C04", "histories on a real single-node Store (8-16 steps [thorough 12-40]): write batches (35% page-heavy), snapshot via raft + real sink, FSM.Snapshot() and Persist+Close driven separately with applies or a snapshot install in between, snapshot with Persist not invoked / failing before the staged WAL is consumed / Close failing at its final rename (the sink's process exit is caught and followed by a restart), FSM.Snapshot() failing to stage the checkpointed WAL, load (raft LOAD entry), boot, follower-style install (real sink + FSM.Restore), reap, restart with forced restore; first 14 directed histories (every confirmed defect shape and every interleaving around a snapshot in flight), then generated ones biased towards 'staged WAL present when the base database changes'; after every step rows of the table, number of staged WALs, number of snapshots and DueNext compared with the model; at every restart the node must open and hold the rows it had applied; non-trivial: at least one snapshot is not installed and one restart happens; distinct by op text")
+	rep := vfNewReport("C04", "histories on a real single-node Store (8-16 steps [thorough 12-40]): write batches (35% page-heavy), snapshot via raft + real sink, FSM.Snapshot() and Persist+Close driven separately with applies or a snapshot install in between, snapshot with Persist not invoked / failing before the staged WAL is consumed / Close failing at its final rename (the sink's process exit is caught and followed by a restart), FSM.Snapshot() failing to stage the checkpointed WAL, load (raft LOAD entry), boot, follower-style install (real sink + FSM.Restore), reap, restart with forced restore; first 15 directed histories (every confirmed defect shape, every interleaving around a snapshot in flight, snapshots whose WAL truncation is blocked twice by parked read transactions), then generated ones biased towards 'staged WAL present when the base database changes'; after every step rows of the table, number of staged WALs, number of snapshots and DueNext compared with the model; at every restart the node must open and hold the rows it had applied; non-trivial: at least one snapshot is not installed and one restart happens; distinct by op text")
 	defer rep.Write()
 	r := vfNewRng(4)
 	var allOps, allImpl [][]string
@@ -590,6 +644,7 @@ func TestVerifC04(t *testing.T) {
 			e.pend.Release()
 			e.pend = nil
 		}
+		e.closeReaders()
 		if !e.dead {
 			e.s.Close(true)
 		}
@@ -645,6 +700,9 @@ func TestVerifC04(t *testing.T) {
 		// Sink.Close failing at its final rename: after the staged WAL was consumed (fatal exit), and for a full snapshot
 		{"write", "snap ok", "bigwrite", "snapbegin", "snapend failafter", "bigwrite", "snap ok", "restart"},
 		{"write", "snapbegin", "snapend failafter", "bigwrite", "snap ok", "restart"},
+		// snapshots whose WAL truncation is blocked by parked readers, twice in a row with the WAL appended
+		// to in between (the content of the segments is C06's; end to end it must still rebuild)
+		{"write", "snap ok", "bigwrite", "park", "snap ok", "bigwrite", "repark", "snap ok", "bigwrite", "unpark", "snap ok", "restart"},
 		// a chain of incrementals, reap, more, restore
 		{"write", "snap ok", "bigwrite", "snap ok", "write", "snap ok", "reap", "write", "snap ok", "restart"},
 	} {
